@@ -196,7 +196,13 @@ func (d *rawDoc) set(f string, v json.RawMessage) {
 func rawVal(r json.RawMessage) *big.Int { return bigOf(strings.Trim(string(r), `"`)) }
 
 // body builds the request body of a class; returns (method, body, hash to verify a 200 against)
+// hiddenLen hides the body's length from net/http, which then frames the request with Transfer-Encoding: chunked
+type hiddenLen struct{ io.Reader }
+
 func (w *srvWorld) classBody(class string) (string, []byte, *big.Int) {
+	// "chunked:<class>": the same request framed with Transfer-Encoding: chunked instead of Content-Length
+	w.chunked = strings.HasPrefix(class, "chunked:")
+	class = strings.TrimPrefix(class, "chunked:")
 	d := w.rawValid()
 	parts := strings.Split(class, ":")
 	kind := parts[0]
@@ -366,9 +372,16 @@ type apiAnswer struct {
 
 func (w *srvWorld) send(addr, method string, body []byte, hash *big.Int) apiAnswer {
 	cl := &http.Client{Transport: &http.Transport{DisableKeepAlives: true}, Timeout: 90 * time.Second}
-	rq, err := http.NewRequest(method, "http://"+addr+"/prove", bytes.NewReader(body))
+	var rd io.Reader = bytes.NewReader(body)
+	if w.chunked && body != nil {
+		rd = hiddenLen{bytes.NewReader(body)}
+	}
+	rq, err := http.NewRequest(method, "http://"+addr+"/prove", rd)
 	if err != nil {
 		return apiAnswer{Err: err.Error()}
+	}
+	if w.chunked && body != nil && rq.ContentLength != 0 {
+		die("request is not going to be chunked")
 	}
 	rs, err := cl.Do(rq)
 	if err != nil {
@@ -416,6 +429,10 @@ func (w *srvWorld) send(addr, method string, body []byte, hash *big.Int) apiAnsw
 		}
 	}
 	return a
+}
+
+func timedOut(e string) bool {
+	return strings.Contains(e, "Timeout") || strings.Contains(e, "deadline exceeded")
 }
 
 func allowed(expect string, a apiAnswer) bool {
@@ -474,7 +491,10 @@ func init() {
 					}
 					// the whole history of this server: what it answers may depend on the earlier sequences
 					r.Case = map[string]interface{}{"mode": cs.Mode, "depth": cs.Depth, "batch": cs.Batch, "sequences": cs.Sequences[:si+1], "canary": cs.Canary, "body_of_failing_request": bs}
-					if a.Err != "" && a.Status == 0 {
+					if a.Err != "" && a.Status == 0 && !timedOut(a.Err) {
+						r.Detail = "connection closed WITHOUT A RESPONSE: " + r.Detail
+					}
+					if a.Err != "" && a.Status == 0 && timedOut(a.Err) {
 						// no response at all within the client's 90 s: every later request would wait as long; report and stop
 						r.Detail = "NO RESPONSE within 90 s (a (2,2) proof takes under a second): " + r.Detail
 						r.Observed = obs
@@ -490,7 +510,7 @@ func init() {
 				r.OK = false
 				r.Detail = fmt.Sprintf("after the sequence the server no longer answers a valid request with 200: %d %s err=%q %s", a.Status, a.Code, a.Err, a.Detail)
 				r.Case = map[string]interface{}{"mode": cs.Mode, "depth": cs.Depth, "batch": cs.Batch, "sequences": cs.Sequences[:si+1], "canary": cs.Canary}
-				if a.Err != "" && a.Status == 0 {
+				if a.Err != "" && a.Status == 0 && timedOut(a.Err) {
 					r.Observed = obs
 					emit(r)
 					return
